@@ -196,6 +196,20 @@ def units_c10_copies():
     return U
 
 
+def units_c10_frames():
+    """tensor_crystal_to_sample / tensor_sample_to_crystal: E_sample = U.E_crystal.U^T and back (symbolic E and U, no orthogonality needed)"""
+    tm = lambda: [repo_module("ImageD11.sinograms.tensor_map")]
+    U = []
+    for fname, spec in (("tensor_crystal_to_sample", lambda a, kw, pc: np.dot(a[1], np.dot(a[0], a[1].T))),
+                        ("tensor_sample_to_crystal", lambda a, kw, pc: np.dot(a[1].T, np.dot(a[0], a[1])))):
+        def run(m, E, Umat, fname=fname):
+            res = NP.zeros((3, 3))
+            _gu(m[0], fname)(E, Umat, res)
+            return res
+        U.append(_mk("py:tensor_map." + fname, tm, run, lambda: ((ST.symarray("E", (3, 3)), ST.symarray("U", (3, 3))), {}), spec, prop="C10"))
+    return U
+
+
 def b_c04_numeric(ctx):
     """bounded: the algebraic consistency clauses of C04 evaluated on the real (compiled) functions for seeded random cells x rotations"""
     import numpy
@@ -296,6 +310,28 @@ def units_c10_grain():
                      replay_fn=_replay_strain(lambda m, ubi, cell, meth=meth: getattr(m[0].grain(ubi), meth)(cell, m=0.5), kind),
                      extra_fn=lambda m: {"inv": NP.linalg.inv},
                      requires_fn=lambda: [_T(NP.linalg.det(ST.symarray("ubi", (3, 3)))) >= 0]))
+    # the reference handed over as another grain: the module must take that grain's UB (orientation included), not its B
+    for meth, kind in (("eps_sample_matrix", "V"), ("eps_grain_matrix", "S")):
+        def run_ref(m, ubi, ub0, meth=meth):
+            class Ref:
+                pass
+            ref = Ref()
+            ref.UB = ub0
+            ref.B = ST.symarray("refB", (3, 3))          # a different matrix: using it instead of UB changes F
+            g = m[0].grain(ubi)
+            E = getattr(g, meth)(ref, m=0.5)
+            F, w, s, vh = ST.Tracer.current.svd_calls[-1]
+            return [F, E]
+        def spec_ref(a, kw, pc, kind=kind):
+            ubi, ub0 = a
+            F = np.dot(ubi.T, ub0.T)
+            w, s, vh = ST.symarray("svd0_w", (3, 3)), ST.symarray("svd0_s", (3,)), ST.symarray("svd0_vh", (3, 3))
+            X = np.dot(w, np.dot(NP.diag(s), w.T)) if kind == "V" else np.dot(vh.T, np.dot(NP.diag(s), vh))
+            return [F, (X - ST.lift(np.eye(3).astype(int))) / 1]
+        U.append(_mk("py:grain.grain." + meth + "[grain reference]", gr, run_ref,
+                     lambda: ((ST.symarray("ubi", (3, 3)), ST.symarray("ub0", (3, 3))), {}), spec_ref, prop="C10",
+                     extra_fn=lambda m: {"inv": NP.linalg.inv},
+                     requires_fn=lambda: [_T(NP.linalg.det(ST.symarray("ubi", (3, 3)))) >= 0]))
     def run_e6(m, e):
         s = m[0].e6_to_symm(e)
         return [s, m[0].symm_to_e6(s)]
@@ -354,6 +390,18 @@ def b_c10_numeric(ctx):
             g0 = gr.grain((R.dot(numpy.linalg.inv(B0.T))).T)
             chk("zero for the reference cell", numpy.allclose(g0.eps_grain_matrix(cell, m), 0, atol=1e-9) and
                 numpy.allclose(g0.eps_sample_matrix(cell, m), 0, atol=1e-9), m=m, cell=cell)
+        # the reference given as another grain (its UB, i.e. with its own orientation U0) instead of cell parameters
+        U0 = rot()
+        UB0 = U0.dot(B0)
+        gref = gr.grain(numpy.linalg.inv(UB0))
+        g3 = gr.grain((F.dot(numpy.linalg.inv(UB0.T))).T)
+        for m in (-1, 0, 0.5, 1):
+            want = mlog(S) if m == 0 else (mpow(S, 2 * m) - numpy.eye(3)) / (2 * m)
+            chk("grain reference: grain-frame strain == Seth-Hill(S)", numpy.allclose(g3.eps_grain_matrix(gref, m), want, atol=1e-9), m=m, cell=cell)
+            chk("grain reference: sample-frame strain == R.E.R^T", numpy.allclose(g3.eps_sample_matrix(gref, m), R.dot(want).dot(R.T), atol=1e-9),
+                m=m, cell=cell)
+        chk("grain reference: zero strain against itself", numpy.allclose(gref.eps_grain_matrix(gref), 0, atol=1e-9) and
+            numpy.allclose(gref.eps_sample_matrix(gref), 0, atol=1e-9), cell=cell)
         ubis = numpy.array([ubi, ubi * numpy.nan, ubi])
         cells = numpy.array([cell, cell, cell])
         es = tm.ubi_and_unitcell_to_eps_sample(ubis, cells)
@@ -363,4 +411,5 @@ def b_c10_numeric(ctx):
         if len(samples) < 2:
             samples.append(dict(cell=[round(float(x), 3) for x in cell], stretch=numpy.round(S, 4).tolist()))
     return dict(evaluations=ev * 7, distinct_nontrivial=ev, samples=samples, failures=fails,
-                rule="seeded random reference cells x known stretch S (|S-I| ~ 1e-2) x rotation R, m in {-1,-1/2,0,1/2,1,3/2,2}")
+                rule="seeded random reference cells x known stretch S (|S-I| ~ 1e-2) x rotation R, m in {-1,-1/2,0,1/2,1,3/2,2}; reference given as cell "
+                     "parameters and as another grain with its own random orientation")
